@@ -1275,6 +1275,7 @@ pub fn run(mut sc: Scenario, scratch: &str) -> RunLog {
             let pend = tokio::time::Instant::now() + Duration::from_millis(120_000);
             let mut res = ProbeResult { id: None, recv_success: false, send_success: false, file_ok: false, report_answered: false };
             let mut asked_report = false;
+            let mut next_poll = tokio::time::Instant::now() + Duration::from_millis(2);
             loop {
                 let next = s.queue.peek().map(|i| shared.t0 + Duration::from_micros(i.at_us));
                 tokio::select! {
@@ -1290,7 +1291,10 @@ pub fn run(mut sc: Scenario, scratch: &str) -> RunLog {
                             if top.at_us <= now { let it = s.queue.pop().unwrap(); s.exec(it.kind); if s.paced { break; } } else { break; }
                         }
                     }
-                    _ = tokio::time::sleep(Duration::from_millis(if asked_report { 500 } else { 2 })) => {
+                    // (an absolute deadline: in paced mode there is an event every millisecond and a
+                    // relative sleep re-created by each loop iteration would never fire in time)
+                    _ = tokio::time::sleep_until(next_poll) => {
+                        next_poll = tokio::time::Instant::now() + Duration::from_millis(500);
                         let pid = ids.lock().unwrap().get(tr).cloned().flatten();
                         res.id = pid;
                         if let Some(pid) = pid {
